@@ -19,6 +19,7 @@ package engine
 import (
 	"encoding/base64"
 	"path"
+	"sort"
 	"strings"
 
 	"github.com/gobwas/glob"
@@ -87,6 +88,16 @@ func (f files) Glob(pattern string) files {
 	return nf
 }
 
+// sortedNames returns the names of the files in ascending order.
+func (f files) sortedNames() []string {
+	names := make([]string, 0, len(f))
+	for name := range f {
+		names = append(names, name)
+	}
+	sort.Strings(names)
+	return names
+}
+
 // AsConfig turns a Files group and flattens it to a YAML map suitable for
 // including in the 'data' section of a Kubernetes ConfigMap definition.
 // Duplicate keys will be overwritten, so be aware that your file names
@@ -109,9 +120,11 @@ func (f files) AsConfig() string {
 
 	m := make(map[string]string)
 
-	// Explicitly convert to strings, and file names
-	for k, v := range f {
-		m[path.Base(k)] = string(v)
+	// Explicitly convert to strings, and file names. The files are visited in
+	// path order: for duplicate base names the last one wins, and which one
+	// that is must not depend on map iteration order.
+	for _, k := range f.sortedNames() {
+		m[path.Base(k)] = string(f[k])
 	}
 
 	return toYAML(m)
@@ -139,8 +152,8 @@ func (f files) AsSecrets() string {
 
 	m := make(map[string]string)
 
-	for k, v := range f {
-		m[path.Base(k)] = base64.StdEncoding.EncodeToString(v)
+	for _, k := range f.sortedNames() {
+		m[path.Base(k)] = base64.StdEncoding.EncodeToString(f[k])
 	}
 
 	return toYAML(m)
